@@ -93,7 +93,9 @@ func (sp *SAMLServiceProvider) validateLogoutResponseAttributes(response *types.
 // declarations whose prefix no element or attribute name below el uses. Such a
 // declaration means nothing, and exclusive canonicalization drops it, so a signed
 // message can gain one in transit; encoding/xml however matches it against struct
-// fields by local name (xmlns:ID="x" would be read as the ID attribute).
+// fields by local name (xmlns:ID="x" would be read as the ID attribute). Uses inside
+// el's own ds:Signature child do not count: no signature covers that subtree, and the
+// enveloped-signature transform removes it before canonicalization.
 func withoutUnusedNamespaceDeclarations(el *etree.Element) []etree.Attr {
 	used := map[string]bool{}
 	var walk func(e *etree.Element)
@@ -105,6 +107,9 @@ func withoutUnusedNamespaceDeclarations(el *etree.Element) []etree.Attr {
 			}
 		}
 		for _, c := range e.ChildElements() {
+			if e == el && c.Tag == dsig.SignatureTag && c.NamespaceURI() == dsig.Namespace {
+				continue
+			}
 			walk(c)
 		}
 	}
